@@ -242,7 +242,7 @@ func (g *gen) genStruct(c *ctx, name string, depth int, nFields int, usedNames m
 			opts = append(opts, nullish)
 		}
 		if g.rng.Intn(6) == 0 {
-			v := []string{"0", "1", "'x'", "CURRENT_TIMESTAMP"}[g.rng.Intn(4)]
+			v := []string{"0", "1", "'x'", "CURRENT_TIMESTAMP", "'Open Item'"}[g.rng.Intn(5)]
 			items = append(items, "default:"+v)
 			opts = append(opts, "default:"+v)
 			c.count("tag_default")
